@@ -4,6 +4,7 @@ import (
 	"flag"
 	"fmt"
 	"os"
+	"runtime/pprof"
 	"strconv"
 )
 
@@ -47,6 +48,11 @@ func main() {
 			os.Exit(2)
 		}
 		must(os.MkdirAll(*out, 0o755))
+		if pf := os.Getenv("VERIF_PROF"); pf != "" {
+			f, _ := os.Create(pf)
+			pprof.StartCPUProfile(f)
+			defer pprof.StopCPUProfile()
+		}
 		rep := fn(*out, seed, *tier, *replay)
 		seenPanic := map[string]bool{}
 		for _, pe := range panicsSeen {
